@@ -906,6 +906,28 @@ ASMJIT_API Error CodeHolder::resolve_cross_section_fixups() noexcept {
   return err;
 }
 
+Error CodeHolder::_validate_label_fixups(const LabelEntry& le, uint32_t to_section_id, uint64_t to_offset) const noexcept {
+  for (const Fixup* fixup = le.unresolved_fixups(); fixup; fixup = fixup->next) {
+    if (fixup->label_or_reloc_id == Globals::kInvalidId && fixup->section_id == to_section_id) {
+      int64_t displacement = int64_t(to_offset - uint64_t(fixup->offset) + uint64_t(int64_t(fixup->rel)));
+
+      uint32_t mask32;
+      uint64_t mask64;
+      uint32_t value_size = fixup->format.value_size();
+
+      bool encodable = value_size == 8u ? CodeWriterUtils::encode_offset64(&mask64, displacement, fixup->format)
+                     : value_size == 1u || value_size == 2u || value_size == 4u ? CodeWriterUtils::encode_offset32(&mask32, displacement, fixup->format)
+                     : false;
+
+      if (ASMJIT_UNLIKELY(!encodable)) {
+        return make_error(Error::kInvalidDisplacement);
+      }
+    }
+  }
+
+  return Error::kOk;
+}
+
 ASMJIT_API Error CodeHolder::bind_label(const Label& label, uint32_t to_section_id, uint64_t to_offset) noexcept {
   uint32_t label_id = label.id();
 
@@ -927,23 +949,7 @@ ASMJIT_API Error CodeHolder::bind_label(const Label& label, uint32_t to_section_
   // Validate before anything is modified: a pending same-section fixup whose displacement cannot be encoded must not leave
   // the label bound, the other fixups patched, and this one orphaned in the list of unresolved fixups - bind_label() either
   // succeeds or changes nothing.
-  for (const Fixup* fixup = le._get_fixups(); fixup; fixup = fixup->next) {
-    if (fixup->label_or_reloc_id == Globals::kInvalidId && fixup->section_id == to_section_id) {
-      int64_t displacement = int64_t(to_offset - uint64_t(fixup->offset) + uint64_t(int64_t(fixup->rel)));
-
-      uint32_t mask32;
-      uint64_t mask64;
-      uint32_t value_size = fixup->format.value_size();
-
-      bool encodable = value_size == 8u ? CodeWriterUtils::encode_offset64(&mask64, displacement, fixup->format)
-                     : value_size == 1u || value_size == 2u || value_size == 4u ? CodeWriterUtils::encode_offset32(&mask32, displacement, fixup->format)
-                     : false;
-
-      if (ASMJIT_UNLIKELY(!encodable)) {
-        return make_error(Error::kInvalidDisplacement);
-      }
-    }
-  }
+  ASMJIT_PROPAGATE(_validate_label_fixups(le, to_section_id, to_offset));
 
   Section* section = _sections[to_section_id];
   CodeBuffer& buf = section->buffer();
